@@ -82,13 +82,13 @@ package gocvss20
 //@   requires[wf] (wf20 cvss20)
 //@   inline Impact Exploitability
 //@   ensures[spec] (and (fp.eq result (tenth (kof result))) (baseRel20 cvss20 (kof result)))
-//@   ensures[one_decimal_in_scale] (exists-in (k 0 100) (fp.eq result (tenth k)))
+//@   ensures[one_decimal_in_scale] (isTenthIn result 0 100)
 //@   ensures[no_allocation] (= allocs (old allocs))
 
 //@ func (CVSS20).TemporalScore(cvss20)
 //@   requires[wf] (wf20 cvss20)
 //@   ensures[spec] (and (fp.eq result (tenth (kof result))) (tempRel20 (kof $CVSS20.BaseScore#1) cvss20 (kof result)))
-//@   ensures[one_decimal_in_scale] (exists-in (k 0 100) (fp.eq result (tenth k)))
+//@   ensures[one_decimal_in_scale] (isTenthIn result 0 100)
 //@   oracle[spec_closed] (and (fp.eq result (tenth (kof result))) (exists-in (kb 0 100) (and (baseRel20 cvss20 kb) (tempRel20 kb cvss20 (kof result)))))
 //@   ensures[no_allocation] (= allocs (old allocs))
 
@@ -98,7 +98,7 @@ package gocvss20
 //@   ensures[spec_adjusted_base] (and (fp.eq recBase (tenth (kof recBase))) (adjBaseRel20 cvss20 (kof recBase)))
 //@   ensures[spec_adjusted_temporal] (and (fp.eq adjustedTemporal (tenth (kof adjustedTemporal))) (tempRel20 (kof recBase) cvss20 (kof adjustedTemporal)))
 //@   ensures[spec_final] (and (fp.eq result (tenth (kof result))) (envRel20 (kof adjustedTemporal) cvss20 (kof result)))
-//@   ensures[one_decimal_in_scale] (exists-in (k -2 100) (fp.eq result (tenth k)))
+//@   ensures[one_decimal_in_scale] (isTenthIn result (- 2) 100)
 //@   oracle[spec_closed] (and (fp.eq result (tenth (kof result))) (exists-in (ka -2 100) (and (adjBaseRel20 cvss20 ka) (exists-in (kt -2 100) (and (tempRel20 ka cvss20 kt) (envRel20 kt cvss20 (kof result)))))))
 //@   ensures[no_allocation] (= allocs (old allocs))
 
